@@ -33,7 +33,10 @@ OPERATORS = ["RegularizedPtychographicOperator", "SimultaneousPtychographicOpera
 I_ATOM = "𝑖"
 VOCAB = {"exp", "angle", "abs", "absolute", "fft2", "ifft2", "conj", "conjugate", "sqrt", "real", "imag",
          # guards around the modulus: recognised so that a regularised division is classified (as not exact)
-         "maximum", "minimum", "clip", "where", "finfo", "eps", "dtype", "tiny", "float32", "float64"}
+         "maximum", "minimum", "clip", "where", "finfo", "eps", "dtype", "tiny", "float32", "float64",
+         # comparison operators as they appear in normal forms of masks (where(d > 0, ...)): a masked projection is
+         # classified (as not the exact projection), not unreadable
+         "Lt", "LtE", "Gt", "GtE", "Eq", "NotEq", "logical_and", "logical_or", "logical_not", "isfinite", "isclose"}
 
 
 def _k(p: Poly) -> str:
